@@ -87,6 +87,7 @@ def slice_with_static_deps(path, signature_res, provided=()):
             have.add(m.group(1))
     deps = []           # (name, text) in discovery order
     todo = list(wanted)
+    src0 = open(path, encoding="utf-8", errors="replace").read()
     while todo:
         text = todo.pop()
         for name in sorted(set(re.findall(r"\b([A-Za-z_]\w*)\s*\(", text))):
@@ -95,7 +96,15 @@ def slice_with_static_deps(path, signature_res, provided=()):
             try:
                 dep = slice_function(path, r"^static\s[^;{}()=]*\b%s\s*\(" % re.escape(name))
             except BuildError:
-                continue
+                # a helper of the same file that is not static (a new public function next to the sliced
+                # one): a definition at the start of a line - type, name, parameter list, then a brace
+                m = re.search(r"^[A-Za-z_][\w \t\*]*\b%s\s*\([^;{}]*\)\s*\{" % re.escape(name), src0, re.M)
+                if not m:
+                    continue
+                try:
+                    dep = slice_function(path, r"^[A-Za-z_][\w \t\*]*\b%s\s*\([^;{}]*\)\s*\{" % re.escape(name))
+                except BuildError:
+                    continue
             have.add(name)
             deps.append((name, dep))
             todo.append(dep)
